@@ -185,6 +185,9 @@ func (pe *PathEnum) evalInstr(in ssa.Instruction, st *PathState, prev *ssa.Basic
 		st.Env[v] = pe.Bind[v]
 		return
 	}
+	// re-executing an instruction (loop) invalidates what an earlier
+	// iteration learnt about its value
+	delete(st.Env, v)
 	switch x := in.(type) {
 	case *ssa.Phi:
 		for i, p := range x.Block().Preds {
@@ -477,7 +480,7 @@ func (pr *PathResult) ErrOutcome(idx int) string {
 		if !ok {
 			continue
 		}
-		if pr.State.Resolve(x) == v {
+		if rx := pr.State.Resolve(x); rx == v || SameLoad(rx, v) {
 			// the most recent test of this value decides (loops re-test it)
 			if isNil {
 				out = "nil"
